@@ -1,0 +1,171 @@
+//go:build verif
+
+// Contracts for the config parser (property C17), checked by /verif/govc.
+// This file contains comments only; it changes nothing in a build, with or without the tag.
+
+package conf
+
+// ------------------------------------------------------------------ the element tree
+//
+// wfTree: every element has a children map, and every entry of it is an element.
+//
+//@ pred isElem(e) = e != nil && e.iselem
+//@ pred wfTree() = forall l: *elem {l.iselem} :: l.iselem ==> (l != nil && l.children != nil && (forall k: seq {l.children[k]} :: haskey(l.children, k) ==> (l.children[k] != nil && l.children[k].iselem)))
+//
+//@ func newElem
+//@   allocates
+//@   exitghost result.iselem = true
+//@   ensures result != nil && fresh(result) && result.iselem && result.kind == kind && result.name == name && len(result.value) == 0
+//@   ensures result.children != nil && fresh(result.children) && len(result.children) == 0 && len(result.line) == 0
+//@   ensures forall k: seq {haskey(result.children, k)} :: !haskey(result.children, k)
+//@   safety [C17]
+//
+//@ func (*elem).setValue
+//@   requires e != nil
+//@   modifies e.value
+//@   ensures result == e && e.value == value
+//@   safety [C17]
+//
+//@ func (*elem).addChild
+//@   requires e != nil && e.children != nil
+//@   modifies mapcells(e.children)
+//@   ensures haskey(e.children, name) && e.children[name] == child
+//@   ensures forall k: seq {e.children[k]} {haskey(e.children, k)} :: k != name ==> (haskey(e.children, k) == old(haskey(e.children, k)) && e.children[k] == old(e.children[k]))
+//@   safety [C17]
+//
+//@ func (*elem).addLine
+//@   requires e != nil
+//@   modifies e.line, elems(e.line)
+//@   allocates
+//@   ensures result == e && len(e.line) == old(len(e.line)) + 1 && e.line[len(e.line) - 1] == line
+//@   safety [C17]
+//
+//@ func (*elem).findChild
+//@   requires e != nil
+//@   pure
+//@   ensures ok == haskey(e.children, name)
+//@   ensures ok ==> ret == e.children[name]
+//@   safety [C17]
+//
+//@ func (*elem).isNode
+//@   requires e != nil
+//@   pure
+//@   ensures result == (e.kind == 0)
+//@   safety [C17]
+//
+//@ func (*elem).isLeaf
+//@   requires e != nil
+//@   pure
+//@   ensures result == (e.kind == 1)
+//@   safety [C17]
+//
+// ------------------------------------------------------------------ path lookup
+// The path syntax itself (/a/b<key>) is not specified: analysisPath is only shown not to panic.
+//
+//@ func (*elem).analysisPath
+//@   allocates
+//@   loop 0 invariant cap(ret) == 0 || loopfresh(0, ret)
+//@   loop 0 modifies elems(ret)
+//@   safety [C17]
+//
+//@ func (*elem).getElem
+//@   requires isElem(e) && wfTree()
+//@   pure
+//@   ensures err == nil ==> isElem(result0)
+//@   loop 0 invariant isElem(targetNode)
+//@   safety [C17]
+//
+//@ func (*elem).getValue
+//@   requires isElem(e) && wfTree()
+//@   allocates
+//@   safety [C17]
+//
+// ------------------------------------------------------------------ typed getters: the parsed value, or the default when
+// the key is absent (lookup error) or malformed (number syntax, range of the target type)
+//
+//@ pred confOK(c) = c != nil && c.mutex != nil && isElem(c.root) && wfTree()
+//
+//@ func (*Conf).GetStringWithDef
+//@   requires confOK(c)
+//@   modifies c.gval, c.gerr
+//@   allocates
+//@   site getValue#0 ghostafter c.gval = $ret0
+//@   site getValue#0 ghostafter c.gerr = $ret1
+//@   ensures [C17] result == (c.gerr != nil ? defVal : c.gval)
+//@   safety [C17]
+//
+//@ func (*Conf).GetIntWithDef
+//@   requires confOK(c)
+//@   modifies c.gval, c.gerr
+//@   allocates
+//@   site getValue#0 ghostafter c.gval = $ret0
+//@   site getValue#0 ghostafter c.gerr = $ret1
+//@   ensures [C17] result == ((c.gerr == nil && parseIntOK(c.gval, 10, 0)) ? parseIntV(c.gval, 10) : defVal)
+//@   safety [C17]
+//
+//@ func (*Conf).GetInt32WithDef
+//@   requires confOK(c)
+//@   modifies c.gval, c.gerr
+//@   allocates
+//@   site getValue#0 ghostafter c.gval = $ret0
+//@   site getValue#0 ghostafter c.gerr = $ret1
+//@   ensures [C17] result == ((c.gerr == nil && parseIntOK(c.gval, 10, 32)) ? parseIntV(c.gval, 10) : defVal)
+//@   safety [C17]
+//
+//@ func (*Conf).GetBoolWithDef
+//@   requires confOK(c)
+//@   modifies c.gval, c.gerr
+//@   allocates
+//@   site getValue#0 ghostafter c.gval = $ret0
+//@   site getValue#0 ghostafter c.gerr = $ret1
+//@   ensures [C17] result == ((c.gerr == nil && parseBoolOK(c.gval)) ? parseBoolV(c.gval) : defVal)
+//@   safety [C17]
+//
+//@ func (*Conf).GetFloatWithDef
+//@   requires confOK(c)
+//@   modifies c.gval, c.gerr
+//@   allocates
+//@   site getValue#0 ghostafter c.gval = $ret0
+//@   site getValue#0 ghostafter c.gerr = $ret1
+//@   ensures [C17] result == ((c.gerr == nil && parseFloatOK(c.gval, 64)) ? parseFloatV(c.gval, 64) : defVal)
+//@   safety [C17]
+//
+// ------------------------------------------------------------------ parsing
+// Error or complete: success is returned only after the tokenizer has reported a clean end of input
+// (io.EOF, every element closed). Line grammar: every scanned line is trimmed; comment and blank lines are
+// ignored; every other line is recorded, and if its key (text before the first '=', trimmed) is non-empty
+// a leaf with exactly that key and the trimmed text after the first '=' is stored in the current domain.
+// No frame is given (the element tree is rebuilt in place).
+//
+//@ func (*Conf).InitFromBytes
+//@   requires confOK(c)
+//@   noframe
+//@   allocates
+//@   site NewDecoder#0 ghost c.pendLine = false
+//@   site NewDecoder#0 ghost c.pendKey = false
+//@   site Token#0 ghostafter c.xerr = $ret1
+//@   site Text#0 ghostafter c.pendLine = !lineIgnored(confLine($ret))
+//@   site Text#0 ghostafter c.pendKey = !lineIgnored(confLine($ret)) && len(lineKey(confLine($ret))) > 0
+//@   site addLine#0 assert [C17] c.pendLine && $1 == confLine(lineDecoder.cur) && $0 == currNode
+//@   site addLine#0 ghost c.pendLine = false
+//@   site addChild#0 assert [C17] c.pendKey && !c.pendLine && $0 == currNode && $1 == lineKey(confLine(lineDecoder.cur))
+//@   site addChild#0 assert [C17] $2 != nil && $2.kind == 1 && $2.name == $1 && $2.value == lineVal(confLine(lineDecoder.cur))
+//@   site addChild#0 ghost c.pendKey = false
+//@   site Scan#0 assert [C17] !c.pendLine && !c.pendKey
+//@   ensures [C17] result == nil ==> c.xerr == io.EOF
+//@   ensures confOK(c)
+//@   loop 0 invariant confOK(c) && xmlDecoder != nil && len(nodeStack) == xmlDecoder.depth + 1 && xmlDecoder.depth >= 0 && !c.pendLine && !c.pendKey
+//@   loop 0 invariant forall j {nodeStack[j]} :: (0 <= j && j < len(nodeStack)) ==> isElem(nodeStack[j])
+//@   loop 1 invariant confOK(c) && xmlDecoder != nil && len(nodeStack) == xmlDecoder.depth + 1 && xmlDecoder.depth >= 0 && !c.pendLine && !c.pendKey
+//@   loop 1 invariant forall j {nodeStack[j]} :: (0 <= j && j < len(nodeStack)) ==> isElem(nodeStack[j])
+//@   loop 1 invariant lineDecoder != nil && isElem(currNode)
+//@   loop 0 modifies everything
+//@   loop 1 modifies everything
+//@   safety [C17]
+//
+//@ func (*Conf).InitFromString
+//@   requires confOK(c)
+//@   noframe
+//@   allocates
+//@   ensures [C17] result == nil ==> c.xerr == io.EOF
+//@   safety [C17]
